@@ -1,3 +1,23 @@
 #!/bin/sh
-# seed_regress.sh: every stored seeded change must be reported by the quick check of its property
-for d in /verif/seeded/*/; do /verif/tools/seed_recheck.sh $(basename $d) quick 2>&1 | head -1; done
+# seed_regress.sh [lanes]: every stored (non-retired) seeded change must be reported by the quick check of
+# its property; properties are spread over <lanes> parallel lanes (same-property seeds stay sequential).
+lanes=${1:-4}
+cd /verif; mkdir -p .build/sweeps; rm -f .build/sweeps/regress-lane*.txt
+props=$(ls seeded | cut -c1-3 | sort -u)
+n=0
+for p in $props; do
+  lane=$((n % lanes)); n=$((n+1))
+  echo $p >> .build/sweeps/regress-lane$lane.props
+done
+for l in $(seq 0 $((lanes-1))); do
+  ( for p in $(cat .build/sweeps/regress-lane$l.props 2>/dev/null); do
+      for d in seeded/$p*; do
+        s=$(basename $d)
+        if grep -q '"retired"' $d/meta.json; then echo "$s: retired"; continue; fi
+        timeout 2400 tools/seed_recheck.sh $s quick 2>&1 | head -1
+      done
+    done > .build/sweeps/regress-lane$l.txt 2>&1 ) &
+done
+wait
+rm -f .build/sweeps/regress-lane*.props
+cat .build/sweeps/regress-lane*.txt | sort
